@@ -164,7 +164,7 @@ def parse_spec(path):
             cur_fn.r6[n] = sec
             section = sec
         elif s.startswith("%proof") and cur_fn is not None:
-            m = re.match(r'%proof\s+(before|afterblock|after|start)(?:\s+"(.*)")?(?:\s+#(\d+))?\s*$', s)
+            m = re.match(r'%proof\s+(before|afterblock|after|start|inloop)(?:\s+"(.*)")?(?:\s+#(\d+))?\s*$', s)
             if not m:
                 raise Undecided("bad %%proof at %s:%d" % (path, lineno))
             sec = []
@@ -178,7 +178,7 @@ def parse_spec(path):
             cur_fn.proofs.append((m.group(1), m.group(2), int(m.group(3) or 0), sec, None))
             section = sec
         elif s.startswith("%ghost") and cur_fn is not None:
-            m = re.match(r'%ghost\s+(before|afterblock|after|start)(?:\s+"(.*)")?(?:\s+#(\d+))?\s*$', s)
+            m = re.match(r'%ghost\s+(before|afterblock|after|start|inloop)(?:\s+"(.*)")?(?:\s+#(\d+))?\s*$', s)
             if not m:
                 raise Undecided("bad %%ghost at %s:%d" % (path, lineno))
             sec = []
@@ -568,6 +568,18 @@ def fn_inserts(u, m, d, it, info, used_fns, probe_fn):
             ptxt = "\n" + mac + " {\n" + spec_lines_to_text(sec) + "\n}\n"
         if where == "start":
             pos = it["body_start"] + 1
+        elif where == "inloop":
+            # at the start of the body of the loop whose header contains the anchor (same pairing rule as %loop)
+            cands = [l for l in loops if norm(anchor) in l["header"]]
+            if len(cands) <= occ:
+                idx = [k for k, (a2, _, o2) in enumerate(fs.loops) if a2 == anchor and o2 == occ]
+                if idx and len(loops) == len(fs.loops):
+                    cands, occ2 = [loops[idx[0]]], 0
+                else:
+                    raise Undecided("anchor lost (inloop in %s): %r" % (full, anchor))
+            else:
+                occ2 = occ
+            pos = cands[occ2]["body_open"] + 1
         else:
             a, z = find_anchor(body, anchor, occ, "proof in " + full)
             if where == "afterblock":
